@@ -272,7 +272,8 @@ pub fn cov_cases(tier: &str, rng: &mut Rng) -> Vec<Case> {
         let bin_size = match rng.below(3) {
             0 => rng.range(1, 400),
             1 => {
-                let sh = rng.range(1, 32);
+                // up to 2^52: the option is a u64, sizes beyond the u32 range put every window in bin 0
+                let sh = rng.range(1, 52);
                 1 + rng.below(1 << sh)
             }
             _ => *rng.pick(&[1u64, 1, 2, 3, 5, 16, 100, 1 << 20, u32::MAX as u64]),
@@ -315,7 +316,7 @@ pub fn cov_cases(tier: &str, rng: &mut Rng) -> Vec<Case> {
 /// boundaries of `floor(c / bin_size)`, where a reciprocal-multiply or other inexact quotient first goes wrong.
 pub fn cov_boundary_cases(rng: &mut Rng) -> Vec<Case> {
     let mut cases = Vec::new();
-    let sizes: Vec<u64> = (1..=700u64).chain([1000, 4097, 65_537, 1_000_003, 16_777_217, 100_000_007]).collect();
+    let sizes: Vec<u64> = (1..=700u64).chain([1000, 4097, 65_537, 1_000_003, 16_777_217, 100_000_007, (1 << 32) - 1, 1 << 32, (1 << 32) + 1, (1 << 32) + 5, (1 << 33) + 2, (1 << 40) + 3]).collect();
     for bs in sizes {
         let k = 4usize;
         let s: Vec<u8> = (0..160).map(|_| b"ACGT"[rng.below(4) as usize]).collect();
@@ -326,7 +327,10 @@ pub fn cov_boundary_cases(rng: &mut Rng) -> Vec<Case> {
             let x = f.min(r);
             if seen.insert(x) {
                 let m = tbl.len() as u64 / 2 + 1;
-                let c = (m * bs - (tbl.len() as u64 % 2)).min(u32::MAX as u64) as u32;
+                // beyond the u32 range every multiplicity is below the bin size (bin 0): use multiples of the size's low 32
+                // bits, which a narrowed divisor would spread over the bins
+                let unit = if bs > u32::MAX as u64 { (bs & 0xffff_ffff).max(1) } else { bs };
+                let c = (m * unit - (tbl.len() as u64 % 2)).min(u32::MAX as u64) as u32;
                 tbl.push((x, c));
                 if tbl.len() >= 80 {
                     break;
@@ -462,6 +466,23 @@ pub fn run_c11_one(tier: &str, rng: &mut Rng, model: &Model, rep: &mut Report, c
             s = vec![*rng.pick(b"ACGT"); len];
         }
         cases.push(Case::new("cgr", &[sz], &s, tag));
+    }
+    // long records with low-complexity runs laid across every multiple of 1024 (block-wise or restartable evaluation must
+    // carry the marker exactly: after 64+ bases pulling one coordinate to 0 the marker is far below S/2^64)
+    let lens: Vec<usize> = if tier == "thorough" { vec![4096 + 300, 8192 + 200, 16_384 + 100, 65_536 + 200, 131_072 + 50] } else { vec![4096 + 300, 8192 + 200, 16_384 + 100] };
+    for len in lens {
+        let mut s = gen::clean_seq(rng, len, gen::Flavor::Uniform);
+        let mut b = 1024usize;
+        while b < len {
+            let run = rng.range(70, 260) as usize;
+            let before = rng.range(66, run as u64) as usize;
+            let letters: &[u8] = *rng.pick(&[&b"A"[..], &b"AC"[..], &b"AT"[..], &b"a"[..], &b"G"[..], &b"CG"[..], &b"TU"[..]]);
+            for i in b.saturating_sub(before)..(b + run - before).min(len) {
+                s[i] = *rng.pick(letters);
+            }
+            b += 1024;
+        }
+        cases.push(Case::new("cgr", &[*rng.pick(&[1u64, 16, 1000])], &s, "runs-across-block-boundaries"));
     }
     run_section(rep, model, "cgr-one", cases, &impl_cgr, &judge);
 }
